@@ -43,6 +43,10 @@ def universe():
         "Vf": ufl.variable(f * c),
         "Vv": ufl.variable(v),
         "VA": ufl.variable(A),
+        # mixed extents: renaming / reordering of free indices must keep each index's own dimension
+        "M": ufl.Coefficient(ufl.FunctionSpace(m, E.P("triangle", 1, (2, 3)))),
+        "b3": ufl.Coefficient(ufl.FunctionSpace(m, E.P("triangle", 1, (3,)))),
+        "z": ufl.constantvalue.Zero(),
     }
     return L.Universe(t)
 
@@ -256,11 +260,29 @@ def main(argv):
         for b in l1:
             if a.shape == b.shape and set(a.fid) == set(b.fid):
                 c.append(("as_vector", a.recipe, b.recipe))
+    # zeros carrying free indices (also of mixed extents) and conditionals with such a zero as a branch
+    for a in l1:
+        if a.fid:
+            c.append(("mul", ("t", "z"), a.recipe))
+            zr = ("mul", ("t", "z"), a.recipe)
+            c.append(("conditional", ("lt", ("t", "f"), ("t", "c")), zr, a.recipe))
+            c.append(("conditional", ("gt", ("t", "f"), ("t", "c")), a.recipe, zr))
     l2 = level(c, 2, sample_every=200)
     # L3: as_tensor over L1 u L2 (every selection/permutation of <= 2 free indices)
     c = []
     for s in l1 + l2:
         c += tensor_cands(s)
+    # products of the (zero-branch) conditionals with indexed terminals in both orders: the index sums are created
+    # in different orders, so renumbering visits the indices of the Zero in either order
+    condz = [s for s in l2 if s.recipe[0] == "conditional" and s.fid]
+    for s in condz:
+        for b in l1:
+            if b.fid and set(b.fid) <= set(s.fid) and len(b.fid) == 1:
+                c.append(("mul", b.recipe, s.recipe))
+                c.append(("mul", s.recipe, b.recipe))
+                for b2 in l1:
+                    if b2.fid and set(b2.fid) <= set(s.fid) and len(b2.fid) == 1 and set(b2.fid) != set(b.fid):
+                        c.append(("mul", b2.recipe, ("mul", b.recipe, s.recipe)))
     l3 = level(c, 3, sample_every=500)
     # L4: index the tensors of L3 (and the list tensors of L2) again with pool indices
     c = []
